@@ -32,23 +32,18 @@ Proof. exact ipv4_strict_iff. Qed.
 Print Assumptions C11_ipv4_strict_iff_dotted_quad.
 
 (* is_valid_ipv6: RFC 4291 text, optionally followed by '%' and a scope id of 1..15 characters
-   (any characters but '%'); empty and over-long scope ids are rejected *)
+   containing neither '%' nor '/'; empty and over-long scope ids are rejected *)
 Theorem C11_ipv6_iff : forall s,
   is_valid_ipv6 s = AOk true <->
   ipv6_text s \/
-  exists a sc, ipv6_text a /\ (1 <= length sc <= 15)%nat /\ ~ In 37 sc /\ s = a ++ [37] ++ sc.
+  exists a sc, ipv6_text a /\ (1 <= length sc <= 15)%nat /\ ~ In 37 sc /\ ~ In 47 sc /\ s = a ++ [37] ++ sc.
 Proof. exact is_valid_ipv6_iff. Qed.
 Print Assumptions C11_ipv6_iff.
 
-(* finding K11a: a '/' is accepted, and only inside the scope id *)
-Theorem C11_ipv6_no_slash_refuted : ~ (forall s, is_valid_ipv6 s = AOk true -> ~ In 47 s).
-Proof. exact ipv6_no_slash_refuted. Qed.
-Print Assumptions C11_ipv6_no_slash_refuted.
-
-Theorem C11_ipv6_slash_only_in_scope : forall s, is_valid_ipv6 s = AOk true -> In 47 s ->
-  exists a sc, s = a ++ [37] ++ sc /\ ipv6_text a /\ In 47 sc.
-Proof. exact ipv6_slash_only_in_scope. Qed.
-Print Assumptions C11_ipv6_slash_only_in_scope.
+(* repaired finding K11a: no accepted address contains a '/' (ipaddress refuses any '/') *)
+Theorem C11_ipv6_no_slash : forall s, is_valid_ipv6 s = AOk true -> ~ In 47 s.
+Proof. exact is_valid_ipv6_no_slash. Qed.
+Print Assumptions C11_ipv6_no_slash.
 
 (* is_valid_ip = non-strict IPv4 (library oracle) or IPv6 *)
 Theorem C11_ip_logic : forall aton s, aton_contract aton = true ->
@@ -72,20 +67,11 @@ Theorem C11_ipv6_cidr_logic : forall net6 s, is_valid_ipv6_cidr net6 s = AOk tru
 Proof. exact is_valid_ipv6_cidr_logic. Qed.
 Print Assumptions C11_ipv6_cidr_logic.
 
-(* is_valid_mac: six hex pairs separated by ':' — and, observation O1, the same followed by one
-   newline (Python's `$`).  Derived from the regenerated regex AST. *)
-Theorem C11_mac_iff : forall s,
-  is_valid_mac s = true <-> exists body, mac_text body /\ (s = body \/ s = body ++ [10]).
+(* is_valid_mac: exactly six hex pairs separated by ':' (repaired finding O1: the pattern now ends
+   in \Z).  Derived from the regenerated regex AST. *)
+Theorem C11_mac_iff : forall s, is_valid_mac s = true <-> mac_text s.
 Proof. exact is_valid_mac_iff. Qed.
 Print Assumptions C11_mac_iff.
-
-Theorem C11_mac_strict_iff : forall s, ends_nl s = false -> (is_valid_mac s = true <-> mac_text s).
-Proof. exact is_valid_mac_strict_iff. Qed.
-Print Assumptions C11_mac_strict_iff.
-
-Theorem C11_mac_full_statement_refuted : ~ (forall s, is_valid_mac s = true <-> mac_text s).
-Proof. exact mac_full_statement_refuted. Qed.
-Print Assumptions C11_mac_full_statement_refuted.
 
 (* ports and ICMP numbers: int(value) succeeds and lies in the range; None for the code only *)
 Theorem C11_port_iff : forall v,
